@@ -13,6 +13,16 @@ Nums == << I(0), I(1), I(2), I(7), I(10), I(12), I(120), I(0 - 3), S(<<"a">>), S
 PlArgs == << Nil, S(<<"e", "s">>), S(<<"y", ",", "i", "e", "s">>), S(<<"a", ",", "b", ",", "c">>) >>
 YnArgs == << Nil, S(<<"y", ",", "n">>), S(<<"y", ",", "n", ",", "m">>), S(<<"y">>), S(<<"a", ",", "b", ",", "c", ",", "d">>) >>
 
+\* floatformat: every multiple of 1/8 in -3..3 (exact in binary: ties are settled) and values around the rounding boundaries
+FixVals == {125 * k : k \in (0 - 24)..24} \cup {1, 0 - 1, 4, 5, 6, 15, 49, 51, 994, 995, 996, 999, 1001, 1234, 1236, 34232, 34260, 39560, 0 - 1234, 9995, 9999, 99999, 0 - 99999}
+FfArgs == << Nil, I(0), I(1), I(2), I(3), I(4), I(5), I(0 - 1), I(0 - 2), I(0 - 3), I(0 - 4), I(1000 + 1), S(<<"0">>), S(<<"-", "3">>), S(<<"2">>), S(<<"x">>), S(<<>>) >>
+FmtVals == {I(0), I(7), I(0 - 7), I(12345), S(<<>>), S(<<"a", "b">>), S(<<"EACUTE", "CJK">>), S(<<"a", "b", "c", "d", "e", "f">>)}
+\* the argument as written: the format string of a spec record
+SpecArg(spec) == S(spec.pre \o <<"%">> \o (IF spec.flag = "" THEN <<>> ELSE <<spec.flag>>) \o (IF spec.width = 0 THEN <<>> ELSE NatStr(spec.width)) \o <<spec.verb>> \o spec.post)
+Layouts == << <<"2006", "-", "01", "-", "02">>, <<"15", ":", "04", ":", "05">>, <<"02", " ", "Jan", " ", "2006", ",", " ", "Mon">>, <<"3", ":", "04", "PM">>, <<>>, <<"x", "y">>,
+              <<"2006", "2006">>, <<"02", "/", "01", "/", "2006", " ", "15", ":", "04">> >>
+LayoutArg(l) == S(Flatten3([j \in 1..Len(l) |-> [c \in 1..1 |-> l[j]]]))
+
 \* C17 alphabets
 EscAlpha == <<"&", "<", ">", "\"", "'", "a", "EACUTE", ";", "#", "3">>
 SlashAlpha == <<"\\", "\"", "'", "a", "n", " ">>
@@ -56,6 +66,24 @@ Init ==
             \/ \E a \in {0, 5, 42, 907, 1234}, b \in (0 - 1)..5 : vec = Vec("get_digit", I(a), I(b), FilterRef("get_digit", I(a), I(b)))
             \/ \E a \in 1..Len(Nums), p \in 1..Len(PlArgs) : vec = Vec("pluralize", Nums[a], PlArgs[p], FilterRef("pluralize", Nums[a], PlArgs[p]))
             \/ \E a \in 1..Len(Nums), p \in 1..Len(YnArgs) : vec = Vec("yesno", Nums[a], YnArgs[p], FilterRef("yesno", Nums[a], YnArgs[p])))
+       [] Family = "float" -> (
+            \/ \E n \in FixVals, a \in 1..Len(FfArgs) :
+                 /\ ~UnsettledTie(n, AbsI(IF FfArgs[a].k = "nil" THEN 1 ELSE ArgInt(FfArgs[a])))
+                 /\ vec = Vec("floatformat", Fix(n), FfArgs[a], FilterRef("floatformat", Fix(n), FfArgs[a]))
+            \/ \E q \in 1..Len(Nums), a \in 1..Len(FfArgs) : vec = Vec("floatformat", Nums[q], FfArgs[a], FilterRef("floatformat", Nums[q], FfArgs[a]))
+            \/ \E n \in FixVals : \/ vec = Vec("integer", Fix(n), Nil, FilterRef("integer", Fix(n), Nil))
+                                   \/ vec = Vec("float", Fix(n), Nil, FilterRef("float", Fix(n), Nil))
+            \/ \E q \in 1..Len(Nums) : \/ vec = Vec("integer", Nums[q], Nil, FilterRef("integer", Nums[q], Nil))
+                                        \/ vec = Vec("float", Nums[q], Nil, FilterRef("float", Nums[q], Nil)))
+       [] Family = "fmt" -> (
+            \/ \E v \in FmtVals, pre \in {<<>>, <<"n", "=">>}, post \in {<<>>, <<"!">>}, flag \in {"", "-", "0"}, width \in {0, 1, 3, 5}, verb \in {"d", "s", "v"} :
+                 /\ (verb = "d") = (v.k = "int") \/ verb = "v"
+                 /\ (verb = "v" => v.k \in {"int", "str"})
+                 /\ (flag # "" => width > 0)
+                 /\ LET spec == [pre |-> pre, post |-> post, flag |-> flag, width |-> width, verb |-> verb] IN
+                    vec = Vec("stringformat", v, SpecArg(spec), StringFormat(v, spec))
+            \/ \E i \in {1, 2}, l \in 1..Len(Layouts), f \in {"date", "time"} : vec = Vec(f, Instant(i), LayoutArg(Layouts[l]), DateFormat(Instant(i), Layouts[l]))
+            \/ \E q \in 1..Len(Nums), f \in {"date", "time"} : vec = Vec(f, Nums[q], LayoutArg(Layouts[1]), DateFormat(Nums[q], Layouts[1])))
        [] Family = "widthratio" -> (
             \E v \in 0..12, m \in 1..12, w \in {10, 100, 7} :
               LET r == WidthRatio(v, m, w) IN vec = Vec("widthratio", I(v), P(I(m), I(w)), P(I(r.lo), I(r.hi))))
@@ -82,6 +110,12 @@ Shapes ==
                /\ (vec.f = "ljust" => SubSeq(vec.out.s, 1, Len(vec.in.s)) = vec.in.s)
                /\ (vec.f = "rjust" => SubSeq(vec.out.s, Len(vec.out.s) - Len(vec.in.s) + 1, Len(vec.out.s)) = vec.in.s)
           [] vec.f = "truncatechars" -> (vec.arg.n > 0 => (Len(vec.out.s) <= Max2(vec.arg.n, Min2(Len(vec.in.s), vec.arg.n)) /\ (Len(vec.in.s) <= vec.arg.n => vec.out.s = vec.in.s)))
+          [] vec.f = "floatformat" ->      \* exactly |n| places after the point (none, and no point, for 0); a whole number only when trimmed
+               (vec.out.k = "str" =>
+                  LET d == AbsI(IF vec.arg.k = "nil" THEN 1 ELSE ArgInt(vec.arg)) dots == {i \in 1..Len(vec.out.s) : vec.out.s[i] = "."} IN
+                  IF d = 0 THEN dots = {} ELSE dots = {Len(vec.out.s) - d})
+               /\ (vec.out.k = "int" => ThousandthsOf(vec.in) = 1000 * vec.out.n /\ (vec.arg.k # "int" \/ vec.arg.n <= 0))
+          [] vec.f = "stringformat" -> Len(vec.out.s) >= Len(StrOf(vec.in))
           [] vec.f = "escape" -> EscapeDecodes(vec.in.s) /\ EscapeNoDangerous(vec.in.s)
           [] vec.f = "addslashes" -> AddSlashesOnlyNamed(vec.in.s)
           [] vec.f = "escapejs" -> JsOnlySafe(vec.in.s)
